@@ -32,6 +32,8 @@ pub const OPS: &[&str] = &[
     "rlp.encode.stream",
     "rlp.encode.rlp_bytes",
     "rlp.encode.list_item",
+    "rlp.encode.list_first_of_two",
+    "rlp.encode.list_pair",
     "rlp.decode",
     "rlp.decode.as_val",
     "rlp.decode.trait",
@@ -282,6 +284,30 @@ where
             let want = rlp_list_of(&item);
             assert_eq!(&out[..], &want[..], "harness: list framing");
             val1(bo(&out[out.len() - item.len()..]))
+        }
+        "rlp.encode.list_first_of_two" => {
+            // the item as the FIRST element of a bounded two-element list, followed by a u64: the list must close
+            // after exactly two items (an encoder that counts itself twice closes the list early)
+            let mut s = RlpStream::new_list(2);
+            s.append(&x);
+            s.append(&0x1234u64);
+            let out = s.out();
+            let item = rlp::encode(&x);
+            let mut payload = item.to_vec();
+            payload.extend_from_slice(&rlp::encode(&0x1234u64));
+            let want = rlp_list_of(&payload);
+            assert_eq!(&out[..], &want[..], "harness: framing of a two-element list");
+            val1(bo(&item))
+        }
+        "rlp.encode.list_pair" => {
+            // rlp::encode_list of two copies of the value: one list holding both items
+            let out = rlp::encode_list::<Uint<N>, _>(&[x, x]);
+            let item = rlp::encode(&x);
+            let mut payload = item.to_vec();
+            payload.extend_from_slice(&item);
+            let want = rlp_list_of(&payload);
+            assert_eq!(&out[..], &want[..], "harness: framing of encode_list");
+            val1(bo(&item))
         }
         _ => None,
     }
